@@ -185,7 +185,7 @@ Fixpoint run_from (nsrv : Z) (s : st) (ops : list word) : list word :=
 
 Definition nsrv_of (cfg : word) : Z :=
   match cfg with [n] => if (1 <=? n) && (n <=? 3) then n else 1 | _ => 1 end.
-Definition run (cfg : word) (ops : list word) : option (list word) :=
+Definition run_ns (cfg : word) (ops : list word) : option (list word) :=
   Some (run_from (nsrv_of cfg) init ops).
 
 (* ---- the property as a monitor over (ops, observations) --------------------------------
@@ -199,6 +199,8 @@ Definition run (cfg : word) (ops : list word) : option (list word) :=
      clause 3  channels are released only (i) by an update from a server s above the active one:
                exactly the servers below s that have a channel, or (ii) all of them when the last
                watch is cancelled; an update from the active server releases nothing
+     clause 6  (shared fallback channel only, see below) after a revert the lower-priority server is
+               no longer asked for the reverted authority's resources
      clause 0  malformed observation *)
 Record mon := mkM { m_open : Z -> bool; m_act : Z; m_msg : Z -> bool; m_w : Z -> bool;
                     m_unc : Z -> bool (* watched and not yet named by an update the client processed *) }.
@@ -301,8 +303,137 @@ Fixpoint clauses_from (nsrv : Z) (m : mon) (i : Z) (ops obs : list word) : list 
     end
   end.
 
-Definition clauses (cfg : word) (ops obs : list word) : list (Z * Z * bool) :=
+Definition clauses_ns (cfg : word) (ops obs : list word) : list (Z * Z * bool) :=
   clauses_from (nsrv_of cfg) mon_init 0 ops obs.
+
+(* ================= shared fallback channel (cfg [2; 1]) =================================
+   Two servers; the xdsChannel to server 1 is shared with a second authority that keeps a
+   permanent watch (name 9) on it, so it is never torn down: [open (sv s 1)] then only means
+   "the authority under test holds a reference", the transport and the ADS stream state of
+   server 1 live on without it.  Falling back onto it creates no transport, releasing it closes
+   none; what is observable is the names in the requests server 1 receives. *)
+Definition is_shared (cfg : word) : bool := match cfg with [2; 1] => true | _ => false end.
+Definition init_sh : st :=
+  mkS (updv (fun _ => v_closed) 1 (mkV false false 0 false [9])) (fun _ => q_none) (-1).
+Definition tr (s : st) (c : Z) : bool := open (sv s c) || (c =? 1).
+
+Fixpoint ins_all (l acc : list Z) : list Z :=
+  match l with [] => acc | n :: r => ins_all r (ins n acc) end.
+
+(* fallback from server 0 onto the shared server 1 *)
+Definition failure_sh (s : st) (f : Z) : st * (Z -> option (list Z)) :=
+  if uncached s && (f =? 0) && negb (open (sv s 1)) then
+    let x := sv s 1 in
+    let s1 := mkS (updv (sv s) 1 (mkV true (slive x) (ssender x) (smsg x) (ins_all (watched_names s) (subs x))))
+                  (fun n => let q := rq s n in if watched q then mkQ true (qstat q) (ins 1 (chans q)) else q) 1 in
+    send s1 no_req 1
+  else (s, no_req).
+
+Definition step_sh (s : st) (a : aop) : st * list word :=
+  match a with
+  | AWatch n => step 2 s (AWatch n)
+  | AUnwatch n =>
+    if watched (rq s n) then
+      let '(s1, o) := unsub_all s no_req n (chans (rq s n)) in
+      let s2 := mkS (sv s1) (updq (rq s1) n q_none) (active s1) in
+      if existsb (fun k => watched (rq s2 k)) all_names then (s2, emit true [] [] o)
+      else
+        let closed := if open (sv s2 0) then [0] else [] in
+        let x := sv s2 1 in
+        (mkS (updv (fun _ => v_closed) 1 (mkV false (slive x) (ssender x) (smsg x) (subs x))) (rq s2) (-1),
+         emit true [] closed o)
+    else skip s
+  | AAllow c =>
+    let x := sv s c in
+    if tr s c && negb (slive x) then
+      (mkS (updv (sv s) c (mkV (open x) true 1 false (subs x))) (rq s) (active s),
+       emit true [] [] (match subs x with [] => no_req | _ => updo no_req c (subs x) end))
+    else skip s
+  | AFail c =>
+    let x := sv s c in
+    if tr s c && negb (slive x) then
+      if open x then let '(s1, o) := failure_sh s c in (s1, emit true [] [] o) else (s, emit true [] [] no_req)
+    else skip s
+  | ABreak c =>
+    let x := sv s c in
+    if tr s c && slive x then
+      let s0 := mkS (updv (sv s) c (mkV (open x) false 2 (smsg x) (subs x))) (rq s) (active s) in
+      if open x && negb (smsg x) then let '(s1, o) := failure_sh s0 c in (s1, emit true [] [] o)
+      else (s0, emit true [] [] no_req)
+    else skip s
+  | AResp c v rs =>
+    let x := sv s c in
+    if tr s c && slive x then
+      let s0 := mkS (updv (sv s) c (mkV (open x) true (ssender x) true (subs x))) (rq s) (active s) in
+      let ack := updo no_req c (subs x) in
+      if negb (open x) || (active s0 <? c) then (s0, emit true [] [] ack)
+      else
+        let '(s1, o1) :=
+          if (c <? active s0) && open (sv s0 1) then
+            (* revert from the shared server: unsubscribe what was subscribed there, release the reference *)
+            let y := sv s0 1 in
+            let gone := filter (fun n => mem 1 (chans (rq s0 n))) all_names in
+            let sa := mkS (updv (sv s0) 1 (mkV false (slive y) (ssender y) (smsg y)
+                                               (filter (fun n => negb (mem n gone)) (subs y))))
+                          (fun n => let q := rq s0 n in mkQ (watched q) (qstat q) (filter (fun j => j <=? c) (chans q)))
+                          c in
+            send sa ack 1
+          else (s0, ack) in
+        let s2 := mkS (sv s1)
+                      (fun n => let q := rq s1 n in
+                                if watched q then
+                                  match last_named n rs with
+                                  | Some (k, _) => mkQ true (if k =? 1 then 2 else 3) (chans q)
+                                  | None => q
+                                  end
+                                else q)
+                      (active s1) in
+        (s2, emit true [] [] o1)
+    else skip s
+  | ANop => skip s
+  end.
+
+Fixpoint run_from_sh (s : st) (ops : list word) : list word :=
+  match ops with
+  | [] => []
+  | op :: r => let '(s', o) := step_sh s (decode 2 op) in o ++ run_from_sh s' r
+  end.
+
+Definition run (cfg : word) (ops : list word) : option (list word) :=
+  if is_shared cfg then Some (run_from_sh init_sh ops) else run_ns cfg ops.
+
+(* clause 6 (shared mode): after the client has reverted to server 0 - i.e. from an update of
+   server 0 until the next stream failure of server 0 - server 1 is no longer asked for the
+   reverted authority's resources (names 0..2); only the other authority's name 9 remains *)
+Definition off_next (off : bool) (a : aop) (applied : bool) : bool :=
+  match a with
+  | AResp c _ _ => if applied && (c =? 0) then true else off
+  | AFail c | ABreak c => if applied && (c =? 0) then false else off
+  | _ => off
+  end.
+Definition req_sh (i : Z) (off : bool) (r : word) : Z * Z * bool :=
+  match r with
+  | c :: s :: ns => (6, i, (c =? 100) && (negb (off && (s =? 1)) || forallb (fun n => 3 <=? n) ns))
+  | _ => (0, i, false)
+  end.
+Fixpoint clauses_sh (off : bool) (i : Z) (ops obs : list word) : list (Z * Z * bool) :=
+  match ops with
+  | [] => match obs with [] => [] | _ => [(0, i, false)] end
+  | op :: r =>
+    match obs with
+    | [ap; nreq] :: (b200 :: built) :: (b201 :: closed) :: obs' =>
+      match take_words (Z.to_nat nreq) obs' with
+      | Some (reqs, rest) =>
+        let off' := off_next off (decode 2 op) (z2b ap) in
+        ((0, i, (b200 =? 200) && (b201 =? 201)) :: map (req_sh i off') reqs) ++ clauses_sh off' (i + 1) r rest
+      | None => [(0, i, false)]
+      end
+    | _ => [(0, i, false)]
+    end
+  end.
+
+Definition clauses (cfg : word) (ops obs : list word) : list (Z * Z * bool) :=
+  if is_shared cfg then clauses_sh true 0 ops obs else clauses_ns cfg ops obs.
 Definition holds_b (cfg : word) (ops obs : list word) : bool :=
   forallb (fun c => snd c) (clauses cfg ops obs).
 (* the clauses that hold of the code: all but 2 *)
